@@ -321,6 +321,15 @@ class MpStudyEngine(EngineBase):
                 out['results'].append(item)
             else:
                 out['harness_errors'].append('kill sweep plan %d: %s: %s' % (idx, status, str(item)[-800:]))
+        if tier != 'quick':
+            from . import confirm
+            rows, errs = confirm.run(self)
+            out['harness_errors'] += errs
+            out['summary']['confirm_real_kills'] = {
+                'note': 'same semantic kill point in simulation and against real pathos processes SIGKILLed as a group, then a '
+                        'fault-free restart; verdicts must agree (current tree and the in-memory mutant marker-before-result)',
+                'rows': [{'event': r['event'], 'tree': r['tree'], 'real': r['real'].get('verdict'), 'real_type': r['real'].get('type'),
+                          'sim': r['sim'].get('verdict'), 'sim_type': r['sim'].get('type'), 'agree': r['agree']} for r in rows]}
         out['summary']['exhaustive_kill_sweeps'] = {'configs': meta, 'plans_run': n_ok,
                                                     'note': 'every seam step of the first attempt (and, thorough tier, of a killed restart) used as the kill point'}
         return out
